@@ -54,6 +54,10 @@ def key_of(ts, types, style):
 def suite_history(ctx, case):
     n = case['n']; types = NAMES[:n]
     dens = Density(types); diam = Diameter(types)
+    if case.get('others'):
+        # other containers alive in the same process, with the same labels at OTHER positions (a blend and its pure components ...)
+        keep = [Density(types[::-1]), Diameter(types[::-1]), Density(types[-1:]), Diameter(types[1:] + types[:1])]
+        keep[0][types[-1]] = 0.123; keep[1][types[-1]] = 0.77
     drv = ctx.drv
     drv.ask('dens.new %d' % n); drv.ask('diam.new %d' % n)
     cur_r = {}; cur_d = {}
@@ -139,7 +143,7 @@ def gen_case(rng, max_ops):
         if prev and c < 0.2: v = prev[-1] * (1 + rng.choice([1e-6, -1e-6, 4e-6, 1e-9, 1e-12])); isint = False
         elif c < 0.3: v = rng.choice([1e-9, 5e-9, 2e-10, 3e-8]) * rng.choice([1.0, 1.7]); isint = False
         ops.append({'kind': kind, 'ts': ts, 'v': v, 'style': style, 'int': isint})
-    return {'n': n, 'ops': ops}
+    return {'n': n, 'ops': ops, 'others': rng.random() < 0.4}
 
 def generate(ctx):
     N = ctx.n(400, 6000)
